@@ -73,6 +73,13 @@ def helper_oracle(res: Result, rng: random.Random, fails: list, n: int):
                 avps.append(gen.rfc_wire(284, 0, 0x40, pi))
             avps.append(gen.rfc_wire(264, 0, 0x40, b"peer.host"))
             avps.append(gen.rfc_wire(296, 0, 0x40, b"peer.realm"))
+            # Destination-Realm / -Host of the request (the node's own, another realm it might serve, absent): the answer
+            # carries the *local* origin all the same
+            dr = rng.choice([None, b"verif.realm.example", b"other.realm.example"])
+            if dr is not None:
+                avps.append(gen.rfc_wire(283, 0, 0x40, dr))
+            if rng.random() < 0.3:
+                avps.append(gen.rfc_wire(293, 0, 0x40, rng.choice([b"verif.node.example", b"someone.else.example"])))
             body = b"".join(avps)
             # (the request's application id need not be the one the Application object was created with)
             req_app = rng.choice([4, 4, 0, 1, 3, 16777238, 0xffffffff])
